@@ -50,7 +50,7 @@ def with_timeout(f, seconds=0.25):
 def build(desc, slow=False, lenient=False, **kw):
     """-> (module, export dict) ; raises whatever Grammar() raises, or ExportError"""
     _captured.clear()
-    g = with_timeout(lambda: Grammar(desc, **kw), 120.0 if slow else 10.0)
+    g = with_timeout(lambda: Grammar(desc, **kw), 120.0 if slow else 20.0)
     rules = _captured.get('rules')
     if rules is None:
         raise ExportError('translator._assign_ids was not reached')
